@@ -46,7 +46,7 @@ GenRand(i, signers) ==
 RotRand(i, srcs, nonces) ==
   [op |-> "Rotate", k |-> RE(CertKeys), nid |-> RE(NodeIds \cup {NONE}), order |-> RE(Perms(CertKeys)),
    src |-> RE(srcs), which |-> RE({"cur", "cur", "prev"}), k2 |-> RE(CertKeys), e2 |-> RE(EncKeys), n2 |-> RE(nonces),
-   ostate |-> RE(StateOrNone)]
+   ostate |-> RE(StateOrNone), lf |-> RE({FALSE, FALSE, FALSE, TRUE})]
 
 OpsOf(cls, s) ==
   CASE cls = "Authorize"  -> AuthorizeOps
